@@ -30,6 +30,8 @@ struct MainArgs {
   const char *replay;
   const char *replay_out;
   const char *dump_crash;
+  const char *emit_tapes;   // generate tapes only (no execution) into this file
+  const char *transcript_in, *transcript_out;
   long cases, maxlen;
   unsigned long long seed;
   bool verbose;
@@ -51,6 +53,8 @@ inline MainArgs parse_args(int argc, char **argv) {
     else if (s == "--replay") a.replay = nx, ++i;
     else if (s == "--replay-out") a.replay_out = nx, ++i;
     else if (s == "--dump-crash") a.dump_crash = nx, ++i;
+    else if (s == "--emit-tapes") a.emit_tapes = nx, ++i;
+    else if (s == "--transcript") { a.transcript_in = nx; a.transcript_out = (i + 2 < argc) ? argv[i + 2] : ""; i += 2; }
     else if (s == "--cases") a.cases = atol(nx), ++i;
     else if (s == "--maxlen") a.maxlen = atol(nx), ++i;
     else if (s == "--seed") a.seed = strtoull(nx, 0, 10), ++i;
@@ -78,6 +82,13 @@ int case_trampoline(const unsigned char *tape, size_t nops, void *vctx) {
 }
 
 typedef const char *(*feat_name_fn)(int);
+
+inline int emit_trampoline(const unsigned char *tape, size_t nops, void *vctx) {
+  FILE *f = static_cast<FILE *>(vctx);
+  for (size_t i = 0; i < nops; ++i) fprintf(f, "%d %d %d %d %d\n", tape[5 * i], tape[5 * i + 1], tape[5 * i + 2], tape[5 * i + 3], tape[5 * i + 4]);
+  fprintf(f, "\n");
+  return 0;
+}
 
 inline void write_stats(const char *path, const char *cfg, const MainArgs &a, feat_name_fn fname, int result, const std::string &failmsg) {
   FILE *f = path ? fopen(path, "w") : stdout;
@@ -124,6 +135,59 @@ int interp_main(int argc, char **argv, Interp &I, const uint32_t *weights, int n
     return 0;
   }
   if (a.crash) crash_area_open(a.crash);
+
+  if (a.emit_tapes) {  // tapes only: the corpus other builds will replay (C16)
+    char params[256];
+    snprintf(params, sizeof params, "seed=%llu max_success=%ld max_size=%ld", a.seed ? a.seed : 1, a.cases, a.maxlen);
+    setenv("RC_PARAMS", params, 1);
+    FILE *f = fopen(a.emit_tapes, "w");
+    if (!f) return 3;
+    VfRcSpec spec;
+    spec.weights = weights;
+    spec.ncodes = ncodes;
+    spec.nominal_size = 100;
+    static unsigned char dummy[16];
+    size_t n = 0;
+    vf_rc_run(&spec, &emit_trampoline, f, dummy, &n, 0);
+    fclose(f);
+    return 0;
+  }
+  if (a.transcript_in) {  // run every tape of the corpus, write the observable state after every op
+    FILE *in = fopen(a.transcript_in, "r");
+    FILE *out = fopen(a.transcript_out, "w");
+    if (!in || !out) return 3;
+    c.fatal_mask = 0xffffffffu;  // any violation in any build is reported in the transcript
+    char line[256];
+    std::vector<Op> ops;
+    unsigned long tapeno = 0;
+    std::string st;
+    for (;;) {
+      char *got = fgets(line, sizeof line, in);
+      int v[5];
+      if (got && sscanf(line, "%d %d %d %d %d", &v[0], &v[1], &v[2], &v[3], &v[4]) == 5) {
+        Op o = {static_cast<uint8_t>(v[0]), static_cast<uint8_t>(v[1]), static_cast<uint8_t>(v[2]), static_cast<uint8_t>(v[3]), static_cast<uint8_t>(v[4])};
+        ops.push_back(o);
+        continue;
+      }
+      if (!ops.empty() || (got && tapeno == 0 && false)) {
+        fprintf(out, "tape %lu\n", tapeno);
+        I.transcript = out;
+        bool failed = I.run(&ops[0], ops.size());
+        I.transcript = 0;
+        if (failed || c.nonfatal) fprintf(out, "VIOLATION %s\n", failed ? c.msg : c.nonfatal_msg);
+        fprintf(out, "end nontrivial=%d\n", I.nontrivial() ? 1 : 0);
+        ++tapeno;
+        ops.clear();
+      } else if (got) {
+        ++tapeno;  // empty tape
+      }
+      if (!got) break;
+    }
+    fclose(in);
+    fclose(out);
+    printf("transcript tapes=%lu\n", tapeno);
+    return 0;
+  }
 
   if (a.replay) {
     ReplayFile rf;
